@@ -390,6 +390,9 @@ static void op_eval(void) {
   // a sensor of dimension dim must write exactly dim entries
   for (int i = 0; i < m->nsensor; i++) {
     if (m->sensor_type[i] == mjSENS_USER || m->sensor_type[i] == mjSENS_PLUGIN) continue;
+    // the energy sensors set the lazy-evaluation flags flg_energypos / flg_energyvel as a side effect; calling them
+    // outside the pipeline would change what the next mj_forward does, so they are not re-run here
+    if (m->sensor_type[i] == mjSENS_E_KINETIC || m->sensor_type[i] == mjSENS_E_POTENTIAL) continue;
     int dim = m->sensor_dim[i];
     double* buf = (double*)malloc(sizeof(double) * (dim + 8));
     for (int k = 0; k < dim + 8; k++) buf[k] = 1.2345e123;
